@@ -1,5 +1,6 @@
 from common import *
 from bundlelib import *
+import c10
 
 THEOREMS = ['C05.read_no_panic', 'C05.read_in_bounds', 'C05.unknown_sections_skipped', 'C05.sections_fit']
 TRUSTED = ['Go stdlib net/url, crypto/x509, regexp, bytes.Buffer, ioutil.ReadAll (modelled or supplied by harness oracle ops)']
@@ -61,6 +62,16 @@ def mutants(rng, f, thorough):
             if thorough and nv < 2**64: out.append(f[:pos] + enc_head(mt, nv, 8) + f[pos + hl:])
         if v > 0: out.append(f[:pos] + enc_head(mt, v, 8) + f[pos + hl:])      # non-shortest head, same value
         out.append(f[:pos] + enc_head((mt + 1) % 8, v) + f[pos + hl:])          # wrong major type
+    # coordinated pairs: two consecutive unsigned integers (offset, length) whose 64-bit sum wraps around
+    uints = [(pos, hl, v) for (pos, hl, mt, v) in heads if mt == 0]
+    for (p1, h1, v1), (p2, h2, v2) in zip(uints, uints[1:]):
+        if p2 != p1 + h1:
+            continue
+        for ln in {v2, max(v2, 1), len(f) // 2, len(f) - 60 if len(f) > 200 else v2}:
+            if ln <= 0: continue
+            for off in {2**64 - ln, 2**64 - ln + 1, 2**64 - ln - 1 if ln < 2**64 - 1 else 0}:
+                if 0 <= off < 2**64:
+                    out.append(f[:p1] + enc_head(0, off) + enc_head(0, ln) + f[p2 + h2:])
     ks = range(len(f)) if (len(f) <= (600 if thorough else 250)) else sorted(rng.sample(range(len(f)), 150))
     for k in ks: out.append(f[:k])
     out.append(f + b'\x00'); out.append(f[:-8] + (len(f) + 1).to_bytes(8, 'big')); out.append(f[:-9])
@@ -137,6 +148,8 @@ def run(ctx):
         seeds.append(bundle(ver, b'https://example.com/a', None, None, [exch(b'https://example.com/a', 200, [(b'X-A', [b'1'])], b'A' * 30), exch(b'https://example.com/b', 404, [], b'')]))
         for _ in range(2 if not thorough else 10):
             seeds.append(rand_bundle(rng, ver, w, nex=rng.randrange(1, 4)))
+    for ver in ('b1', 'b2'):      # a responses section much larger than everything in front of it
+        seeds.append(bundle(ver, b'https://example.com/', None, None, [exch(b'https://example.com/', 200, [], b'B' * 3000), exch(b'https://example.com/2', 200, [], b'C' * 1200)]))
     grp = variants_group(rng, b'https://example.com/v', [(b'Accept-Language', [b'en', b'fr'])])
     seeds.append(bundle('b1', b'https://example.com/v', b'https://example.com/m', None, [e for e, c in grp]))
     k = w.keys[0]
@@ -150,11 +163,12 @@ def run(ctx):
         muts.append(f)
         muts += mutants(rng, f, thorough)
         muts += sections_variants(f)
+        muts += c10.retabled(f)            # declared section lengths whose sum wraps / single huge entries (table re-measured)
     # F5/F6/F7 witnesses built by hand
     seen, uniq = set(), []
     for mfile in muts:
         if mfile not in seen:
             seen.add(mfile); uniq.append(mfile)
     if not thorough and len(uniq) > 20000:
-        uniq = uniq[:20000]
+        uniq = [uniq[i] for i in sorted(rng.sample(range(len(uniq)), 20000))]     # a sample, not a prefix: every seed bundle stays represented
     read_stage(ctx, [hexs(x) for x in uniq])
